@@ -814,6 +814,9 @@ class PVLParser(object):
         self.parse_WSC_until(None, tokens)
         try:
             return self.parse_units(value, tokens)
+        except LexerError:
+            # There was a Units Expression, and it is bad.
+            raise
         except (ValueError, StopIteration):
             return value
 
